@@ -418,3 +418,7 @@ mod tests {
         assert_eq!(top_p_logits.indices(), &[3]);
     }
 }
+
+#[cfg(kani)]
+#[path = "/verif/kani/rten-generate/filter.rs"]
+mod verif_kani;
